@@ -171,6 +171,25 @@ def method_aliasing():
     if i != h: bad.append("Bar.__setitem__(list)")
     nc = NoteContainer(["C", "E"]); m = ["G", "B"]; n = list(m); nc + n; nc - n
     if n != m: bad.append("NoteContainer +/- list")
+    # comparing containers: neither side is reordered or otherwise changed
+    lst = [Note("G", 4), Note("C", 4), Note("E", 4)]; keep = [(n.name, n.octave) for n in lst]
+    NoteContainer(["C", "E", "G"]) == lst; NoteContainer(["C", "E", "G"]) != lst
+    if [(n.name, n.octave) for n in lst] != keep: bad.append("NoteContainer == list of notes (the list was reordered)")
+    other = NoteContainer(["C", "E"]); other.notes.append(Note("A", 2)); keep = [(n.name, n.octave) for n in other.notes]
+    NoteContainer(["C", "E", "A"]) == other
+    if [(n.name, n.octave) for n in other.notes] != keep: bad.append("NoteContainer == container (the other container was reordered)")
+    b1, b2 = Bar(), Bar(); b1.place_notes(["C", "E"], 4); b2.place_notes(["C", "E"], 4); b2.bar[0][2].notes.reverse()
+    keep = [(n.name, n.octave) for n in b2.bar[0][2].notes]; b1 == b2
+    if [(n.name, n.octave) for n in b2.bar[0][2].notes] != keep: bad.append("Bar == Bar (a container of the other bar was reordered)")
+    # a tuning hands out fresh notes: what the caller does to them does not retune the instrument or a sibling result
+    from mingus.extra import tunings as _tun
+    tn = _tun.StringTuning("x", "y", ["E-2", "A-2", "D-3"])
+    before = [str(tn.get_Note(i, 0)) for i in range(3)]
+    n0 = tn.get_Note(1, 0); n0.transpose("3"); n0.octave_up()
+    c1 = tn.frets_to_NoteContainer([0, 0, 2]); c2 = tn.frets_to_NoteContainer([0, 0, 2])
+    c1.transpose("5")
+    if [str(tn.get_Note(i, 0)) for i in range(3)] != before: bad.append("StringTuning.get_Note(open string) hands out the tuning's own note")
+    if [str(n) for n in c2] != [str(n) for n in tn.frets_to_NoteContainer([0, 0, 2])]: bad.append("frets_to_NoteContainer: two results share notes")
     # dictionaries handed to a call
     for kw in ({}, {"velocity": 90}, {"channel": 5}, {"velocity": 1, "channel": 2}):
         d = {"velocity": 70, "channel": 3}; d0 = dict(d)
